@@ -8,9 +8,9 @@ checks, na = [], []
 for p in props:
     pid = p["id"]
     cf = os.path.join(V, "props", pid + ".json")
-    m = meta["properties"].get(pid, {})
-    if os.path.exists(cf) and m.get("claimed", False):
-        c = json.load(open(cf))
+    c = json.load(open(cf)) if os.path.exists(cf) else {}
+    m = c.get("manifest", {})
+    if m.get("claimed", False):
         checks.append({
             "property_id": pid,
             "quick_cmd": f"./check {pid} quick",
@@ -34,4 +34,13 @@ man = {
     "not_applicable": na,
 }
 json.dump(man, open(os.path.join(V, "MANIFEST.json"), "w"), indent=1)
-print(f"{len(checks)} checks, {len(na)} not claimed")
+# known_findings.json is assembled from findings/*.json (one file per property, merge friendly)
+fl = []
+for f in sorted(glob.glob(os.path.join(V, "findings", "*.json"))):
+    fl.extend(json.load(open(f)))
+json.dump({"_comment": "Committed list of genuine defects of cenkalti/rain found by the checks (assembled from findings/*.json by tools_manifest.py; never written at run time). status=known entries are matched against the oracle's violation text and printed as KNOWN-FINDING; status=fixed entries suppress nothing.",
+           "findings": fl}, open(os.path.join(V, "known_findings.json"), "w"), indent=1)
+for e in meta["engines"]:
+    e["serves_properties"] = [c["property_id"] for c in checks]
+json.dump(man, open(os.path.join(V, "MANIFEST.json"), "w"), indent=1)
+print(f"{len(checks)} checks, {len(na)} not claimed, {len(fl)} findings")
